@@ -896,4 +896,57 @@ example : (applyKeep [ex, exT] 0 (.splitChan 0 "n")).map (fun w => w.map (fun d 
             [[111, 112, 113], [211, 212, 213]]] := by
   decide +kernel
 
+/-! ### 14. non-finite measurements (round 7): the indicator argument
+
+The model only gathers cells and takes means (positive weights).  Run on the INDICATOR of the cells
+that hold a non-finite value (1 there, 0 elsewhere) -- the measurement values never decide what is
+selected -- the group mean `Rsa.mean` of `average_by_is_group_mean` / `bin_is_mean_of_bin` is
+positive exactly when one of the group's OWN cells is marked, and zero exactly when none is.  So
+"a group's mean is NaN iff one of its own cells is NaN" is the proved group-mean statement read on
+indicators (plus IEEE: a sum is NaN iff a summand is, or both infinities occur). -/
+
+theorem sum_nonneg_of_nonneg {K : Type} [Field K] [LinearOrder K] [IsStrictOrderedRing K]
+    (l : List K) (h : ∀ x ∈ l, 0 ≤ x) : 0 ≤ l.sum := by
+  induction l with
+  | nil => simp
+  | cons a t ih =>
+    rw [List.sum_cons]
+    exact add_nonneg (h a (by simp)) (ih (fun x hx => h x (by simp [hx])))
+
+theorem indicator_sum_pos_iff {K : Type} [Field K] [LinearOrder K] [IsStrictOrderedRing K]
+    (l : List K) (h : ∀ x ∈ l, 0 ≤ x) : 0 < l.sum ↔ ∃ x ∈ l, 0 < x := by
+  induction l with
+  | nil => simp
+  | cons a t ih =>
+    have ht : ∀ x ∈ t, 0 ≤ x := fun x hx => h x (by simp [hx])
+    have ha : 0 ≤ a := h a (by simp)
+    have hs := sum_nonneg_of_nonneg t ht
+    rw [List.sum_cons]
+    constructor
+    · intro hpos
+      rcases lt_or_eq_of_le ha with hlt | heq
+      · exact ⟨a, by simp, hlt⟩
+      · rw [← heq, zero_add] at hpos
+        obtain ⟨x, hx, hx0⟩ := (ih ht).1 hpos
+        exact ⟨x, by simp [hx], hx0⟩
+    · rintro ⟨x, hx, hx0⟩
+      rcases List.mem_cons.1 hx with rfl | hxt
+      · exact add_pos_of_pos_of_nonneg hx0 hs
+      · exact add_pos_of_nonneg_of_pos ha ((ih ht).2 ⟨x, hxt, hx0⟩)
+
+/-- the mean of a non-empty group of indicator values (each `0 ≤ x`) is positive iff one of the
+    group's own members is marked; hence it is `0` iff none is -/
+theorem indicator_mean_pos_iff {K : Type} [Field K] [LinearOrder K] [IsStrictOrderedRing K]
+    (l : List K) (h : ∀ x ∈ l, 0 ≤ x) (hne : l ≠ []) : 0 < Rsa.mean l ↔ ∃ x ∈ l, 0 < x := by
+  have hlen : (0 : K) < (l.length : K) := by
+    have : 0 < l.length := List.length_pos_iff.2 hne
+    exact_mod_cast this
+  unfold Rsa.mean
+  rw [div_pos_iff_of_pos_right hlen]
+  exact indicator_sum_pos_iff l h
+
+-- non-vacuity: a marked cell in the group makes the mean positive, a marked cell elsewhere does not
+example : (0 : Rat) < Rsa.mean [0, 1, 0] ∧ ¬ (0 : Rat) < Rsa.mean [0, 0] := by
+  constructor <;> decide +kernel
+
 end Rsa.Props.C11
